@@ -6,11 +6,14 @@
                that derived property from the same object (in the function or, through the returned
                alias, in its callers)
   Q2 DISPATCH  scalar/interval dispatch in Interval.contains / AngleInterval.contains admits int and float
-  Q3 FIELDS    the attributes _validate_goal_state admits are exactly the ones is_reached checks
-  Q4 LOGIC     every check is and-ed into the per-goal flag; the result is an `any` over goal states
-  Q5 PAIRING   each check compares the state's attribute with the goal's attribute of the same name;
-               speed is the norm of (velocity, velocity_y), heading is atan2(velocity_y, velocity)
-  Q6 INDEX     goal_reached returns the index enumerated together with the state that reached the goal
+  Q3 FIELDS    the attributes _validate_goal_state admits are exactly the ones the evaluated suites show tested
+  Q5 PAIRING   heading is atan2(velocity_y, velocity) in the state classes
+  Q6 INDEX     goal_reached, evaluated (c08ev): success exactly when a state reaches the goal, with such an index
+  Q8 MEMBERSHIP shape group = union of members (evaluated), angle interval modulo 2pi (C16), closed polygon (C06)
+  Q9 REACHED   is_reached, evaluated (c08ev) on one / two goal states x subsets of constrained attributes x state
+               kinds: the answer is `some goal state satisfied in all it constrains`, every containment test is asked
+               about the state's value of the same attribute (speed = norm, heading = atan2 for point-mass states),
+               goal states are judged independently
 """
 import ast
 
